@@ -1,0 +1,52 @@
+//go:build verif
+// +build verif
+
+package wasp
+
+// verification hooks: access to unexported pieces from the external harness.
+
+// VerifMIDPool exposes the message id pool.
+type VerifMIDPool struct{ p *simpleMidPool }
+
+func VerifNewMIDPool(min, max int32) VerifMIDPool {
+	return VerifMIDPool{p: newMIDPool(min, max).(*simpleMidPool)}
+}
+func (v VerifMIDPool) Get() int32    { return v.p.Get() }
+func (v VerifMIDPool) Put(mid int32) { v.p.Put(mid) }
+
+// Intervals returns the pool's interval list as (from, to) pairs.
+func (v VerifMIDPool) Intervals() [][2]int32 {
+	v.p.mtx.Lock()
+	defer v.p.mtx.Unlock()
+	out := make([][2]int32, len(v.p.intervals))
+	for i, iv := range v.p.intervals {
+		out[i] = [2]int32{iv.from, iv.to}
+	}
+	return out
+}
+
+// VerifWriterPool exposes the pool of a writer built by NewWriter.
+func VerifWriterPool(w Writer) VerifMIDPool {
+	return VerifMIDPool{p: w.(*writer).midPool.(*simpleMidPool)}
+}
+
+// VerifWriterSetPool replaces a writer's pool (small ranges make exhaustion reachable).
+func VerifWriterSetPool(w Writer, min, max int32) {
+	w.(*writer).midPool = newMIDPool(min, max)
+}
+
+// VerifMessageLog is the unexported messageLog interface.
+type VerifMessageLog = messageLog
+
+// VerifWriterIdle reports whether the writer has no queued job and is not processing one.
+func VerifWriterIdle(w Writer) bool {
+	wr := w.(*writer)
+	if len(wr.queue) != 0 {
+		return false
+	}
+	if !wr.mtx.TryLock() {
+		return false
+	}
+	wr.mtx.Unlock()
+	return len(wr.queue) == 0
+}
